@@ -479,4 +479,70 @@ example : ∃ x, InRange optOps ⟨some (-1000), some 1006, some 0⟩ x ∧
     sw optOps ⟨some (-1000), some 1006, some 0⟩ (some 2000) = optOps.round x :=
   ⟨some 1006, by unfold InRange; decide, by decide⟩
 
+/-! ## writer → picker: the last write into a shared snapshot directory is the one a boot loads
+
+`write_snapshot` replaces `state_<agent>.json`; the OS stamps the new file with the time of the write.  The harness
+component `snap.lastwrite` checks the hypothesis on real file times (`rewrite_carries_a_newer_time`) and the conclusion
+on the real loader (`latest_written_is_loaded`). -/
+
+/-- a directory after `state_<agent>.json` was (re-)written at time `t`: the old entry of that name is gone -/
+def writeAt (l : List Ent) (n : Str) (t : Int) : List Ent := l.filter (fun e => e.name != n) ++ [⟨n, t⟩]
+
+/-- in ANY listing order: a `state_*.json` entry strictly newer than every other entry is the one picked, as long as
+the directory holds no numbered `snap_*.json` -/
+theorem C06_newest_state_is_picked {l : List Ent} {n : Str} {t : Int} (hm : (⟨n, t⟩ : Ent) ∈ l)
+    (hj : endsWith n sDotJson = true) (hs : startsWith n sStatePfx = true)
+    (hno : ∀ y ∈ l, endsWith y.name sDotJson = true → isNumbered y.name = false)
+    (hnew : ∀ y ∈ l, y ≠ (⟨n, t⟩ : Ent) → y.mtime < t) : pickLatest l = some n := by
+  obtain ⟨e, he, hp, _, hmax⟩ := C06_pick_precedence_state (x := ⟨n, t⟩) hm hj hs hno
+  have h1 : t ≤ e.mtime := hmax ⟨n, t⟩ hm hj hs
+  by_cases heq : e = (⟨n, t⟩ : Ent)
+  · rw [hp, heq]
+  · have := hnew e he heq; omega
+
+/-- one write at a time later than everything in the directory is what the next boot picks -/
+theorem C06_last_write_is_picked {l : List Ent} {n : Str} {t : Int}
+    (hj : endsWith n sDotJson = true) (hs : startsWith n sStatePfx = true)
+    (hno : ∀ y ∈ l, endsWith y.name sDotJson = true → isNumbered y.name = false)
+    (hnew : ∀ y ∈ l, y.mtime < t) : pickLatest (writeAt l n t) = some n := by
+  have hnn : isNumbered n = false := by
+    cases h : isNumbered n with
+    | false => rfl
+    | true =>
+      exfalso
+      unfold isNumbered at h
+      simp only [Bool.and_eq_true] at h
+      have h1 := h.1
+      match n, hs, h1 with
+      | [], hs, _ => simp [startsWith, sStatePfx, List.isPrefixOf] at hs
+      | [_], hs, _ => simp [startsWith, sStatePfx, List.isPrefixOf] at hs
+      | a :: b :: _, hs, h1 =>
+        simp [startsWith, sStatePfx, sSnap, List.isPrefixOf] at hs h1
+        omega
+  apply C06_newest_state_is_picked (t := t) _ hj hs
+  · intro y hy hyj
+    unfold writeAt at hy
+    rcases List.mem_append.mp hy with hy | hy
+    · exact hno y (List.mem_filter.mp hy).1 hyj
+    · simp only [List.mem_singleton] at hy; rw [hy]; exact hnn
+  · intro y hy hne
+    unfold writeAt at hy
+    rcases List.mem_append.mp hy with hy | hy
+    · exact hnew y (List.mem_filter.mp hy).1
+    · simp only [List.mem_singleton] at hy; exact absurd hy hne
+  · unfold writeAt; simp
+
+/-- `state_A.json`, `state_B.json` -/
+def stA : Str := sStatePfx ++ [65] ++ sDotJson
+def stB : Str := sStatePfx ++ [66] ++ sDotJson
+
+/-- non-vacuity, and why the hypothesis on the times is needed: A written at 1, B at 2, A re-written at 3 — the boot
+loads A; a writer that keeps the replaced file's times (A stays stamped 1) leaves the stale B "latest" -/
+theorem C06_time_preserving_writer_loads_stale :
+    pickLatest (writeAt [⟨stA, 1⟩, ⟨stB, 2⟩] stA 3) = some stA ∧
+    pickLatest (writeAt [⟨stA, 1⟩, ⟨stB, 2⟩] stA 1) = some stB := by decide
+
+example : pickLatest (writeAt [⟨stA, 1⟩, ⟨stB, 2⟩] stA 3) = some stA :=
+  C06_last_write_is_picked (by decide) (by decide) (by decide) (by decide)
+
 end Clem.Props
